@@ -189,13 +189,17 @@ let blkpeer toks =
           | [n; m; s; sz; off; ln; tag] ->
               let off = max 0 (min blen (int_of_string off)) in
               let ln = max 0 (min (blen - off) (int_of_string ln)) in
-              let ti = if tag = "-" then 0 else int_of_string tag in
+              (* tag = "-" | "<n>" | "<n>u" : Request-Tag / ETag; suffix u = the second resource *)
+              let res_u = String.length tag > 0 && tag.[String.length tag - 1] = 'u' in
+              let tag = if res_u then String.sub tag 0 (String.length tag - 1) else tag in
+              let tag = if tag = "" then "-" else tag in
+              let ti = (if tag = "-" then 0 else int_of_string tag) + (if res_u then 50 else 0) in
               let a = { ba_num = zi n; ba_m = zi m; ba_szx = zi s;
                         ba_size = (if sz = "-" then None else Some (zi sz));
                         ba_data = sub (body_t ti) off ln } in
               let tg = if tag = "-" then None else Some (zi tag) in
               if dir = "b1" then begin
-                let (t', o) = blk_srv_recv junk (zi mx) !tab { rq_rtag = tg; rq_arr = a } in
+                let (t', o) = blk_srv_recv junk (zi mx) !tab { rq_res = z_of_int (if res_u then 2 else 1); rq_rtag = tg; rq_arr = a } in
                 tab := t';
                 (match o with
                  | BoPass -> Printf.sprintf "P:%d:%08x" ln (fnv a.ba_data)
